@@ -222,7 +222,7 @@ class Env(gpp.UGenParameter, gpp.NodeParameter):
         if any(len(i) != 2 for i in pairs):
             raise ValueError(
                 'pairs list must contain only sequences of length 2')
-        pairs = pairs[:]  # Ensures internal state.
+        pairs = [list(i) for i in pairs]  # Ensures internal state (points too).
         if curves is None:
             for i in range(len(pairs)):
                 pairs[i].append('lin')
